@@ -18,6 +18,7 @@ AlphaQ5 == H!AlphaQ5
 AlphaQ6 == H!AlphaQ6
 AlphaQ7 == H!AlphaQ7
 AlphaQ8 == H!AlphaQ8
+AlphaQ9 == H!AlphaQ9
 AlphaT3 == H!AlphaT3
 AlphaT  == H!AlphaT
 AlphaT2 == H!AlphaT2
